@@ -68,6 +68,26 @@ class PyCdlibIO(io.RawIOBase):
     def _read_at_offset(self, readsize):
         # type: (int) -> bytes
         """
+        Read up to readsize bytes at the current offset and advance the offset.
+        If the file carries an El Torito boot info table, the table is
+        overlaid over bytes 8-64, as the file has it on the ISO.
+        """
+        start = self._offset
+        data = self._read_raw_at_offset(readsize)
+        table = self._ctxt.ino.boot_info_table
+        if table is not None and data and start < 64 and start + len(data) > 8:
+            rec = table.record()[:max(0, self._length - 8)]
+            lo = max(start, 8)
+            hi = min(start + len(data), 8 + len(rec))
+            if hi > lo:
+                buf = bytearray(data)
+                buf[lo - start:hi - start] = rec[lo - 8:hi - 8]
+                data = bytes(buf)
+        return data
+
+    def _read_raw_at_offset(self, readsize):
+        # type: (int) -> bytes
+        """
         Read up to readsize bytes at the current offset, going from extent to
         extent as necessary, and advance the offset.
         """
